@@ -115,6 +115,8 @@ FILTERS = {
   "F26": fl(("append", ["html", "head"], "meta")),
   "F27": fl(("replace", ["html", "body", "p"], "p"), ("prepend", ["html", "body"], "p")),
   "F28": fl(("append", ["html"], "x"), ("prepend", ["html"], "none")),
+  # a non-empty list that builds nothing (unknown action): only used by the pipeline cases
+  "F29": fl(("unknown", ["html", "body"], "none")),
 }
 
 def main():
@@ -131,7 +133,7 @@ def main():
     out.append("Prod(D, F) == {Case(d, f) : d \\in D, f \\in F}")
     out.append("DocsWell == {%s}" % ", ".join(n for n in DOCS if n.startswith("A")))
     out.append("DocsMessy == {%s}" % ", ".join(n for n in DOCS if n.startswith("B")))
-    out.append("FiltersAll == {%s}" % ", ".join(FILTERS))
+    out.append("FiltersAll == {%s}" % ", ".join(f for f in FILTERS if f != "F29"))
     out.append("FiltersQuick == {F1, F2, F3, F4, F5, F6, F7, F8, F10, F11, F12, F16, F21, F23, F24, F25, F26, F27}")
     out.append("DocsQuick == {A2, A3, A7, A8, A9, A10, A11, A13, A14, A15, B1, B2, B3, B4, B5, B11, B12, B14, B15}")
     out.append("CasesQuick == Prod(DocsQuick, FiltersQuick)")
